@@ -113,6 +113,15 @@ def setup_jobs():
     return dict(_jobs)
 
 
+def ensure_jobs():
+    """end-to-end runs start from an empty job map (like a fresh process); re-register the stage-level jobs"""
+    from aiu_trace_analyzer.types import GlobalIngestData
+    GlobalIngestData()
+    jm = GlobalIngestData._jobmap
+    if len(_jobs) != 3 or any(h not in jm for h in _jobs.values()):
+        setup_jobs()
+
+
 def mk_event(spec, uid):
     e = {"ph": spec["ph"], "name": spec["name"], "pid": spec["pid"], "ts": spec["ts"], "tid": spec.get("tid", 1)}
     if spec.get("dur") is not None:
@@ -149,6 +158,7 @@ def canon_out(o, ids, snaps):
 def run_stage_impl(keep, spec):
     """the real queueing_counter on a fresh QueueingCounterContext: [[outputs per event], drain outputs]"""
     import aiu_trace_analyzer.pipeline.cmpt_collection as cc
+    ensure_jobs()
     evs = [mk_event(s, i) for i, s in enumerate(spec)]
     snaps = [copy.deepcopy(e) for e in evs]
     ids = {id(e): i for i, e in enumerate(evs)}
@@ -179,6 +189,7 @@ def run_uq_impl(s, e, q):
 
 def run_name_impl(name, job):
     from aiu_trace_analyzer.pipeline.tools import PipelineContextTool
+    ensure_jobs()
     try:
         with quiet():
             return bool(PipelineContextTool.is_category({"ph": "X", "name": name, "args": {"jobhash": _jobs[job]}},
@@ -383,7 +394,7 @@ def in_domain(spec):
         if spec_is_prep(s):
             if s.get("dur") is None or s["dur"] < 0:
                 return False, zero
-            if s["dur"] == 0:
+            if s["ts"] + s["dur"] == s["ts"]:      # empty interval, also when a tiny dur is absorbed by the float sum
                 zero = True
             if s["pid"] in last and s["ts"] < last[s["pid"]]:
                 return False, zero
@@ -455,7 +466,8 @@ def oracle_e2e(sc, keep, res):
     """-> list of (kind, facts) for one end-to-end run"""
     if res["err"]:
         return [("e2e_run_fails", {"error": res["err"]})]
-    bad = []
+    # the property on the exported file first, then diagnoses / hypotheses of the theorems
+    bad = oracle_export(sc, keep, res["export"])
     if res["keyval"] is not None and bool(res["keyval"].get("keep_prep", False)) != keep:
         bad.append(("keep_prep_not_forwarded", {"keyval": res["keyval"]}))
     n_prep = sum(1 for evs in sc["ranks"] for x in evs if x["kind"] == "prep")
@@ -469,7 +481,6 @@ def oracle_e2e(sc, keep, res):
                 bad.append(("stage_input_not_start_sorted", {"pid": s["pid"], "ts": s["ts"], "prev": last[s["pid"]]}))
                 break
             last[s["pid"]] = s["ts"]
-    bad += oracle_export(sc, keep, res["export"])
     return bad
 
 
@@ -815,13 +826,21 @@ def run(ctx):
         if c.get("level") == "stage":
             for keep in ([c["keep_prep"]] if "keep_prep" in c else [False, True]):
                 stage_cases.append((keep, c["events"], "corpus:" + c["_file"]))
-    G, N = ctx.pick((6, 4), (7, 5))
-    fams = families(G, N)
+    grids = ctx.pick([(6, 4)], [(6, 5), (7, 4)])        # (G, N): all families of <= N intervals on 0..G
+    keep_max = ctx.pick(3, 4)
+    fams, seen_f = [], set()
+    for G, N in grids:
+        for fam in families(G, N):
+            k = tuple(fam)
+            if k not in seen_f:
+                seen_f.add(k)
+                fams.append(fam)
+    del seen_f
     n_fam = len(fams)
     for fam in fams:
         spec = [P(0, a, b) for a, b in fam]
         stage_cases.append((False, spec, "grid"))
-        if len(fam) <= ctx.pick(3, 4):
+        if len(fam) <= keep_max:
             stage_cases.append((True, spec, "grid"))
     n_grid = len(stage_cases)
     if not ctx.quick():      # two ranks: pairs of families merged by start, pids interleaved
@@ -866,9 +885,32 @@ def run(ctx):
             key = json.dumps(spec, sort_keys=True)
             if key not in seen_nt and touching(spec):
                 seen_nt.add(key)
+    # off-grid stream (supporting, oracle only): realistic decimal timestamps.  The oracle uses the same float
+    # sums ts+dur as the code, so it stays exact; the Q model is not compared here (DESIGN 2.2)
+    n_off = 0
+    for _ in range(ctx.pick(1500, 20000)):
+        keep = r.random() < 0.4
+        spec = gen_stream(r, domain=True)
+        base = r.choice([0.0, 1.5e6, 1.7e15 / 1e3])
+        sc = r.choice([0.001, 0.37, 1.0 / 560.0])
+        for s in spec:
+            s["ts"] = base + round(s["ts"] * sc, 4)
+            if s.get("dur") is not None:
+                s["dur"] = round(s["dur"] * sc, 4)
+        spec.sort(key=lambda x: x["ts"])
+        ok, zero = in_domain(spec)
+        if not ok or zero:
+            continue
+        n_off += 1
+        f = stage_fail(keep, spec, run_stage_impl(keep, spec), False)
+        if f:
+            f["input"]["origin"] = "off-grid"
+            oracle_failures.append(f)
+    dist["offgrid_oracle_only"] = n_off
+
     bad, extras, secs = coqrun.run_cases(
         "C13_stage", IMPORTS, "(bool * list ev)", "run_val", terms, shard=1000, prelude=T.prelude(),
-        extra="Definition nt := Eval vm_compute in (count_if nontrivial cases).\nPrint nt.")
+        extra="Definition nt := Eval vm_compute in (count_if nontrivial cases).\nLocal Open Scope nat_scope.\nPrint nt.")
     for j in bad[:5]:
         mismatches.append({"name": "correspondence PrepQueue.run_val vs queueing_counter/QueueingCounterContext",
                            "case": {"keep_prep": kept[j][0], "events": kept[j][1], "origin": kept[j][2]},
@@ -1026,9 +1068,11 @@ def run(ctx):
     dist["seconds"] = round(time.time() - t_start, 1)
     return {
         "evaluations": n_eval, "distinct_nontrivial": len(seen_nt),
-        "rule": f"stage tie: ALL start-sorted sequences (every order among equal starts) of <= {N} Prep intervals "
-                f"[a,b) on the grid 0..{G} ({n_fam} families; keep_prep off for all, on for those of <= "
-                f"{ctx.pick(3, 4)} intervals: {n_grid} cases incl. corpus) + random multi-pid streams (sorted / "
+        "rule": "stage tie: ALL start-sorted sequences (every order among equal starts) of <= N Prep intervals "
+                f"[a,b) with integer a < b on the grid 0..G for (G, N) in {grids} ({n_fam} families; keep_prep off "
+                f"for all, on for those of <= {keep_max} intervals: {n_grid} cases incl. corpus) + "
+                + ("30000 two-rank merges of such families + " if not ctx.quick() else "") +
+                "random multi-pid streams (sorted / "
                 "unsorted / malformed / with empty intervals) + update_queues on arbitrary lists + name test + "
                 "the stage inside real Acelyzer runs (+/- --keep_prep). non-trivial = distinct stage input streams "
                 "(direct or recorded end to end) in which some pid has >= 2 Prep intervals that touch, nest or "
